@@ -320,8 +320,10 @@ unsafe fn h_write(fd: c_int, buf: *const c_void, n: usize) -> Option<isize> {
     if !RECORDING || fd <= 2 {
         return None;
     }
+    BLOCKED_IN.store(-2000 - fd as i64, Ordering::SeqCst);
     let r = crate::raw::write(fd, buf, n);
     let en = errno_of(r as i64);
+    BLOCKED_IN.store(0, Ordering::SeqCst);
     rec(K_WRITE, fd as i64, n as i64, 0, r as i64, en, b"");
     crate::raw::set_errno(en);
     Some(r)
